@@ -624,7 +624,11 @@ class Frame:
 
     def truth(self, v: Any, descr: str = "") -> bool:
         if isinstance(v, SBool):
-            return self.I.path.choose(v.name) if self.I.allow_fork else _no_fork(v.name)
+            # one decision per unknown boolean and path
+            cache = self.I.path.__dict__.setdefault("bools", {})
+            if v.name not in cache:
+                cache[v.name] = self.I.path.choose(v.name) if self.I.allow_fork else _no_fork(v.name)
+            return cache[v.name]
         if isinstance(v, SStr):
             return self.I.decide(v.truth, descr and f"{descr} [{v.describe()}]")
         if isinstance(v, SNum):
